@@ -122,6 +122,23 @@ def run_case(ctx, i, rng):
                 except ValueError:
                     pass
     uniquify(n)
+    if i % 5 == 4 or i % 7 == 3:
+        # names are free text: below an instance X two siblings may be called  b  and  X/b  (the flat names X/b and X/X/b differ)
+        for l_ in n.libraries:
+            for d_ in l_.definitions:
+                for x_ in list(d_.children):
+                    r_ = x_.reference
+                    if r_ is None or r_.is_leaf() or not x_.name or any(c_.name == x_.name for c_ in r_.children):
+                        continue
+                    for coll in (list(r_.children), list(r_.cables)):
+                        cands = [y_ for y_ in coll if y_.name and "EDIF.identifier" not in y_ and "/" not in y_.name]
+                        if len(cands) >= 2 and rng.random() < 0.7:
+                            b1, b2 = rng.sample(cands, 2)
+                            try:
+                                b2.name = x_.name + "/" + b1.name
+                                ctx.count("siblings_named_like_a_flat_path")
+                            except ValueError:
+                                pass
     if not flatten_phase(ctx, n, rng, i):
         return
     if i % 6 == 5 or i % 3 == 1:
